@@ -124,9 +124,16 @@ def sym_eseq(L: Logic, name: str):
     return VESeq(t), [], Probe(name, "eseq", (t,))
 
 
+def sym_sigma(L: Logic, name: str):
+    """dict[Variable, set[Variable]]"""
+    Dm = z3.Function(f"{name}.dom", L.Node, L.B)
+    Sg = z3.Function(f"{name}.val", L.Node, L.Node, L.B)
+    return VDict(lambda t: Dm(t), lambda t: VSet(lambda x: Sg(t, x), owned=False), owned=False), [], Probe(name, "nodemap", (Dm, Sg))
+
+
 _REPO = [None]
 
-BUILDERS = {"expr": sym_expr, "eseq": sym_eseq, "seq": sym_seq, "bool": sym_bool, "graph": sym_graph, "nodeset": sym_nodeset, "node": sym_node, "digraph": sym_nx,
+BUILDERS = {"nodemap": sym_sigma, "expr": sym_expr, "eseq": sym_eseq, "seq": sym_seq, "bool": sym_bool, "graph": sym_graph, "nodeset": sym_nodeset, "node": sym_node, "digraph": sym_nx,
             "ugraph": lambda L, n: sym_nx(L, n, directed=False), "pairs": sym_pairs}
 
 
